@@ -130,6 +130,28 @@ theorem empty_sep_whole (cs : CaseMode) (s : List Nat) (max : Nat) (p : List Nat
     simp only [hp]
     rfl
 
+/-- case-insensitive matching folds ASCII letters only: the insensitive split cuts exactly where the
+    case-sensitive split of the folded text by the folded separator cuts (`foldAscii` maps `A`–`Z`
+    to `a`–`z` and is the identity on every other value, see `fold_only_ascii_letters`) -/
+theorem ci_folds_ascii_only (sep : List Nat) (max : Nat) (s : List Nat) :
+    (Spec.Split.split .insensitive sep max s).map (·.map Spec.Search.foldAscii) =
+      Spec.Split.split .sensitive (sep.map Spec.Search.foldAscii) max (s.map Spec.Search.foldAscii) := by
+  unfold Spec.Split.split
+  rw [List.length_map]
+  exact splitAux_fold sep (s.length + 1) max s
+
+theorem fold_only_ascii_letters (c : Nat) :
+    (0x41 ≤ c ∧ c ≤ 0x5A → Spec.Search.foldAscii c = c + 0x20) ∧ (¬ (0x41 ≤ c ∧ c ≤ 0x5A) → Spec.Search.foldAscii c = c) := by
+  unfold Spec.Search.foldAscii
+  constructor
+  · intro h; rw [if_pos (by omega)]
+  · intro h; rw [if_neg (by omega)]
+
+/-- the fuel in the Spec's recursion is only a device: any two sufficient fuels give the same pieces -/
+theorem spec_fuel_irrelevant (cs : CaseMode) (sep : List Nat) (f1 f2 max : Nat) (s : List Nat)
+    (h1 : s.length < f1) (h2 : s.length < f2) :
+    Spec.Split.splitAux cs sep f1 max s = Spec.Split.splitAux cs sep f2 max s := splitAux_fuel cs sep f1 f2 max s h1 h2
+
 /-! ### tokenize -/
 
 /-- `tokenize(delims)` returns, in order, the specified tokens (and terminates) -/
